@@ -127,6 +127,7 @@ def run_one(tape: Any, cfg: Dict[str, Any], forbid: FrozenSet[str] = frozenset()
     from ..tape import Tape
     from .. import scen
 
+    scen.shared_state_begin()
     g = Gen(tape, forbid)
     res = Result()
     ncan = 1 + tape.draw(3, 'ncanaries')
@@ -359,4 +360,4 @@ def run_one(tape: Any, cfg: Dict[str, Any], forbid: FrozenSet[str] = frozenset()
         res.scenario = {'canaries': list(zip(kinds, starts)), 'adv_role': arole, 'adv_kind': akind, 'up_mode': up_mode,
                         'ending': ending, 'cutoff': cutoff, 'data': data[:200].decode('latin-1'), 'opts': opts,
                         'faults': dict(w.fault_kinds), 'fault_p': w.fault_p}
-        return scen.end_run(w, h, res)
+        return scen.end_run(w, h, res, shared_check=True)
